@@ -1,7 +1,7 @@
 """Checks of the request-grain family (C01-C07, C10-C14, C16 and the retention
 clause of C20): exhaustive TLC on RelayMC, TLC-generated + seeded histories
 replayed on the real code (L1 harness), traces validated by TLC (RelayTrace)."""
-import json, os, random, subprocess, sys, time, glob
+import json, os, random, re, subprocess, sys, time, glob
 from concurrent.futures import ThreadPoolExecutor
 
 import relay_cfg
@@ -146,9 +146,16 @@ def split_trace(path, k):
 
 def failing_record(res, chunk_lines):
     """from a TLC counterexample of the trace spec: index of the failing record, its history id, signature"""
-    ce = json.load(open(res["ce"]))
-    last = ce["counterexample"]["state"][-1][1]
-    idx = last["l"] - 2          # 0-based index of the record consumed last
+    try:
+        ce = json.load(open(res["ce"]))
+        l = ce["counterexample"]["state"][-1][1]["l"]
+    except Exception:
+        # (the JSON dump of a very long error trace can fail: the position is also in TLC's printed trace)
+        ls = re.findall(r"^/\\ l = (\d+)", open(res["log"], errors="replace").read(), re.M)
+        if not ls:
+            raise Inconclusive("trace validation reported %s but the position of the failing record could not be read" % res.get("violated"))
+        l = int(ls[-1])
+    idx = l - 2          # 0-based index of the record consumed last
     rec = json.loads(chunk_lines[idx])
     j = idx
     while j >= 0 and json.loads(chunk_lines[j]).get("k") != "reset":
